@@ -10,7 +10,7 @@
    [C28_components_linearizable] instantiates the premise of part 1 with it. *)
 From Coq Require Import String List NArith Bool.
 From LV Require Import model.LockDiscipline model.Lin proofs.LinSim proofs.LinHW proofs.LinHB proofs.Lin proofs.LinTable
-  model.Wlru model.Semaphore proofs.LinInstances gen.LockTable.
+  model.Wlru model.Semaphore model.LinObjects proofs.LinInstances gen.LockTable.
 Import ListNotations.
 Local Open Scope string_scope.
 
@@ -130,7 +130,7 @@ Proof. vm_compute. reflexivity. Qed.
 (* wlru.Cache: every method has an ok row; the rows that take the shared lock are methods whose step in
    model/Wlru.v (C29) returns the cache unchanged (Peek / Contains do not refresh; Keys, Len, Weight, Total,
    GetOldest read).  A row reporting RLock for Add/Get/Remove/... makes this false. *)
-Theorem C28_wlru_table_check : tk_check "Cache" wnames w_readonly checked_table = true.
+Theorem C28_wlru_table_check : tk_check wkeys wk_readonly checked_table = true.
 Proof. vm_compute. reflexivity. Qed.
 
 Theorem C28_wlru_cache_linearizable :
@@ -155,8 +155,30 @@ Theorem C28_wlru_sequential_spec_is_the_model :
              (os_fin wop wret) nowait nowstep o s s' r <-> wstep keqb s o = (s', r).
 Proof. exact (fun K V keqb => os_seq_exec (Wlru.cache K V) wop wret (wstep keqb)). Qed.
 
+(* Flushable (and LazyFlushable, whose parent is produced lazily) over model/Flushable.v (C22), assembled in
+   model/LinObjects.fl_step: Put/Delete/Get/Has/Flush/DropNotFlushed/NotFlushedPairs/NotFlushedSizeEst/
+   GetSnapshot (content through the merged iterator)/batch Write/Stat.  Rows: Flushable.*, flushableReader.Get/Has,
+   cacheBatch.Write (the batch locks the store it writes to). *)
+Theorem C28_flushable_table_check : tk_check fkeys fk_readonly checked_table = true.
+Proof. vm_compute. reflexivity. Qed.
+
+Theorem C28_flushable_linearizable :
+  forall (s0 : fstate) tr c,
+    exec fstate fop fres (option fres) (os_linit fop fres) (os_mstep _ _ _ fl_step) (os_fin fop fres)
+         nowait nowstep (fkind checked_table) s0 tr c ->
+    linearizable fstate fop fres (option fres) (os_linit fop fres) (os_mstep _ _ _ fl_step) (os_fin fop fres)
+         nowait nowstep s0 (hist fop fres tr).
+Proof. exact (flushable_linearizable checked_table C28_flushable_table_check). Qed.
+
+Theorem C28_flushable_race_free :
+  forall (s0 : fstate) tr c,
+    exec fstate fop fres (option fres) (os_linit fop fres) (os_mstep _ _ _ fl_step) (os_fin fop fres)
+         nowait nowstep (fkind checked_table) s0 tr c ->
+    ~ race fstate fop fres (option fres) (os_fin fop fres) nowait (fkind checked_table) c.
+Proof. exact (flushable_race_free checked_table C28_flushable_table_check). Qed.
+
 (* DataSemaphore, including the blocking Acquire (Cond.Wait loop), over model/Semaphore.v (C30) *)
-Theorem C28_semaphore_table_check : tk_check "DataSemaphore" snames s_readonly checked_table = true.
+Theorem C28_semaphore_table_check : tk_check skeys sk_readonly checked_table = true.
 Proof. vm_compute. reflexivity. Qed.
 
 Theorem C28_semaphore_linearizable :
@@ -332,6 +354,9 @@ Print Assumptions C28_wlru_table_check.
 Print Assumptions C28_wlru_cache_linearizable.
 Print Assumptions C28_wlru_cache_race_free.
 Print Assumptions C28_wlru_sequential_spec_is_the_model.
+Print Assumptions C28_flushable_table_check.
+Print Assumptions C28_flushable_linearizable.
+Print Assumptions C28_flushable_race_free.
 Print Assumptions C28_semaphore_table_check.
 Print Assumptions C28_semaphore_linearizable.
 Print Assumptions C28_semaphore_race_free.
